@@ -180,7 +180,30 @@ def rule_cmp_delegate(ctx):
                      and (norm(e.term[1]) == "ebr_impl::pointers::Tagged::is_null" or
                           norm(e.term[1]) in ("strong::Rc::is_null", "strong::Snapshot::is_null"))]
             if len(nullc) != 1:
-                r.violate(asref, "as_ref", "as_ref does not decide by Tagged::is_null", b.loc(0))
+                # the other spelling: `unsafe { self.ptr.as_ref() }.map(RcInner::data)` - decided by Tagged::as_ref of the handle's
+                # own word, which is None iff Tagged::is_null and Some(Tagged::deref) otherwise (judged on its body, below)
+                alt = [e for e in p.events if e.kind == "cond" and isinstance(e.term, tuple) and e.term[0] == "disc"
+                       and isinstance(e.term[1], tuple) and e.term[1][0] == "call"
+                       and norm(e.term[1][1]) == "ebr_impl::pointers::Tagged::as_ref" and e.term[1][2]
+                       and _own_word(e.term[1][2][0])]
+                if nullc or len(alt) != 1 or not _tagged_as_ref_sound(ctx, prog):
+                    r.violate(asref, "as_ref", "as_ref does not decide by Tagged::is_null", b.loc(0))
+                    continue
+                isnull = alt[0].value == 0
+                ret = p.ret
+                var = ret[2] if isinstance(ret, tuple) and ret[0] == "agg" else None
+                if isnull:
+                    ok = var == "None"
+                else:
+                    ok = var == "Some"
+                    if ok:
+                        inner = strip(ret[3][0])
+                        ok = isinstance(inner, tuple) and inner[0] == "call" and norm(inner[1]) == "utils::RcInner::data" and \
+                            len(inner[2]) == 1 and _peel(inner[2][0]) == ("field", "0", ("variant", "Some", alt[0].term[1]))
+                r.instance("%s: Tagged::as_ref is %s -> %s" % (asref, "None" if isnull else "Some", var), ok)
+                if not ok:
+                    r.violate(asref, "as_ref", "as_ref must be None iff the pointer is null and Some(&referent) otherwise",
+                              b.loc(0))
                 continue
             isnull = nullc[0].value == 1
             ret = p.ret
@@ -363,3 +386,48 @@ def rule_ty_sig(ctx):
         r.floor_failures.append("TY-SIG: found %d reference-returning accessors of the handle types, expected at least 6" % nref)
     r.require(n, 17, "snapshot-returning public functions")
     return r
+
+
+def _peel(t):
+    while isinstance(t, tuple) and t[0] in ("ref", "deref") and len(t) >= 2:
+        t = t[1]
+    return t
+
+
+def _own_word(t):
+    """`self.ptr` of the function's own receiver (by value or behind the reference)"""
+    t = _peel(t)
+    if not (isinstance(t, tuple) and t[0] == "field" and t[1] == "ptr"):
+        return False
+    base = _peel(t[2])
+    return isinstance(base, tuple) and base[0] == "arg" and base[1] == 1
+
+
+def _tagged_as_ref_sound(ctx, prog):
+    """Tagged::as_ref is None iff Tagged::is_null(self) and Some(Tagged::deref(self)) otherwise, on every returning path"""
+    b = prog.bodies.get("ebr_impl::pointers::Tagged::<T>::as_ref")
+    if b is None:
+        return False
+    n = 0
+    for p in ctx.ex.paths(b):
+        if p.exit[0] != "return":
+            continue
+        nullc = [e for e in p.events if e.kind == "cond" and isinstance(e.term, tuple) and e.term[0] == "call"
+                 and norm(e.term[1]) == "ebr_impl::pointers::Tagged::is_null" and e.term[2]
+                 and isinstance(_peel(e.term[2][0]), tuple) and _peel(e.term[2][0])[:2] == ("arg", 1)]
+        if len(nullc) != 1:
+            return False
+        ret = p.ret
+        var = ret[2] if isinstance(ret, tuple) and ret[0] == "agg" else None
+        if nullc[0].value == 1:
+            ok = var == "None"
+        else:
+            ok = var == "Some"
+            if ok:
+                inner = _peel(ret[3][0])
+                ok = isinstance(inner, tuple) and inner[0] == "call" and norm(inner[1]) == "ebr_impl::pointers::Tagged::deref" and \
+                    inner[2] and isinstance(_peel(inner[2][0]), tuple) and _peel(inner[2][0])[:2] == ("arg", 1)
+        if not ok:
+            return False
+        n += 1
+    return n >= 2
